@@ -180,7 +180,7 @@ func checkC07(c *Check) {
 	insts := runtimeInstances(c, r)
 	n := 0
 	for _, in := range insts {
-		if in.repo == nil && !in.Cfg.Bools["Ast"] {
+		if in.repo == nil && in.canonOf == nil && !in.Cfg.Bools["Ast"] {
 			n++
 		}
 	}
